@@ -544,6 +544,49 @@ def post_update_structure(snap, result, self, new_predicate):
           'after a functor call every cached transitive argument set is the reachability closure (%s)' % p
 
 
+
+# ------------------------------------------------------------------ BuildDirectArgsOfPredicate, CollectAnnotations (C04)
+def _all_predicate_names(x, out):
+  if isinstance(x, dict):
+    if 'predicate_name' in x and isinstance(x['predicate_name'], str):
+      out.add(x['predicate_name'])
+    for v in x.values():
+      _all_predicate_names(v, out)
+  elif isinstance(x, list):
+    for v in x:
+      _all_predicate_names(v, out)
+  return out
+
+
+def post_direct_args(snap, result, self, functor):
+  want = set()
+  for rule in self.rules_of[functor]:
+    if 'body' in rule:
+      _all_predicate_names(rule['body'], want)
+    _all_predicate_names(rule['head']['record'], want)
+  assert set(result) == want, \
+      'direct arguments of %s = every predicate mentioned anywhere in the bodies and head records of its rules ' \
+      '(missing %s, extra %s)' % (functor, sorted(want - set(result)), sorted(set(result) - want))
+
+
+ANNOTATIONS_INHERITED = ['@Limit', '@OrderBy', '@Ground', '@NoInject', '@Iteration']
+
+
+def _subject(rule):
+  try:
+    return rule['head']['record']['field_value'][0]['value']['expression']['literal']['the_predicate']['predicate_name']
+  except (KeyError, IndexError, TypeError):
+    return None
+
+
+def post_collect_annotations(snap, result, self, predicates):
+  want = [r for a, rules in self.rules_of.items() if a in ANNOTATIONS_INHERITED for r in rules
+          if _subject(r) in set(predicates)]
+  assert len(result) == len(want) and all(x == y for x, y in zip(result, want)), \
+      'every inherited annotation (@Limit, @OrderBy, @Ground, @NoInject, @Iteration) of every cloned predicate is ' \
+      'collected once, in program order: got %d, the program has %d' % (len(result), len(want))
+  assert all(x is not y for x in result for y in want), 'the collected annotation rules are copies'
+
 # ------------------------------------------------------------------ CallFunctor renaming (C04)
 def pre_call_functor2(self, name, applicant, args_map):
   r = pre_call_functor(self, name, applicant, args_map)
@@ -694,6 +737,12 @@ MONITORS += [
           pre_nil, post_nil, raise_nil),
   Monitor(FN + ':Functors.UpdateStructure', ['C04'], ['args_of = reachability closure for every predicate'],
           None, post_update_structure),
+  Monitor(FN + ':Functors.BuildDirectArgsOfPredicate', ['C04', 'C03'],
+          ['direct arguments = every predicate mentioned in the bodies and head records of the rules'],
+          None, post_direct_args),
+  Monitor(FN + ':Functors.CollectAnnotations', ['C04'],
+          ['every inherited annotation of every cloned predicate, once, in program order, as copies'],
+          None, post_collect_annotations),
   Monitor(UN + ':SubqueryTranslator.TranslateWithedTable', ['C08', 'C09'],
           ['registered for the parent query', 'nested WITH tables registered before it'], None, post_withed),
   Monitor(UN + ':LogicaProgram.GenerateWithClauses', ['C08', 'C09'],
